@@ -44,6 +44,11 @@ def check(ctx, idx):
     rng = ctx.rng
     ncls = rng.choice([2, 2, 3, 4])
     X, y = models.gen_classification(rng, n_classes=ncls, n_features=rng.randint(3, ctx.scale(8, 12)), per_class=rng.randint(5, 9))
+    if rng.random() < 0.25:
+        # the units of the measurements are arbitrary (powers of two: still exact): the classifier's weights scale inversely
+        e = rng.choice([-40, -30, -20, 20, 30, 40])
+        X = X * 2.0 ** e
+        ctx.count("data_scaled_2^%d" % e)
     nf = X.shape[1]
     bk = rng.choice(models.BASIS_KINDS + ["custom_int", "custom_float"])
     nm = None if bk == "identity" else rng.randint(2, min(X.shape[0], nf))
